@@ -149,3 +149,26 @@ Proof.
   { apply unpack_pack; [exact W2|]. unfold dec_fuel. pose proof (vdepth_cdepth (MArr row')) as Hv. lia. }
   rewrite P in U1. rewrite U1 in U2. congruence.
 Qed.
+
+(* ---------- the other entry points agree with the two the rest of the development is about ---------- *)
+Lemma from_bytes_cls_agrees c data : from_bytes_cls c data = decode_row data.
+Proof. unfold from_bytes_cls, row_new. destruct (decode_row data); reflexivity. Qed.
+
+Lemma encode_row_cls_agrees c ts row : encode_row_cls c ts row = encode_row ts row.
+Proof. reflexivity. Qed.
+
+Theorem roundtrip_any_class c c' ts row r :
+  encode_row_cls c ts row = Ok r -> no_datetime row = true -> from_bytes_cls c' r = Ok (map CVal row).
+Proof. rewrite encode_row_cls_agrees, from_bytes_cls_agrees. apply roundtrip. Qed.
+
+Theorem rejected_any_class c c' ts row r x :
+  encode_row_cls c ts row = Ok r ->
+  (exists k, (k < length r)%nat /\ x = firstn k r) \/ (exists s, s <> [] /\ x = r ++ s) \/
+  (exists i b, ((i = 0 /\ 4 <= b < 8) \/ (2 <= i <= 5 /\ b < 8)) /\ x = flip_at r i b) ->
+  from_bytes_cls c' x = Raise DataError.
+Proof.
+  rewrite encode_row_cls_agrees, from_bytes_cls_agrees. intros He [(k & Hk & ->) | [(s & Hs & ->) | (i & b & Hib & ->)]].
+  - eapply torn_rejected; eassumption.
+  - eapply extended_rejected; eassumption.
+  - eapply single_bit_flips; eassumption.
+Qed.
